@@ -278,6 +278,9 @@ func init() {
 		Gen: genGeneric("C10", func(g *genCtx) {
 			someFaults(g)
 			g.ft.Groups = []string{"g1", "g2"}[:g.r.Range(1, 2)]
+			if g.r.P(0.25) {
+				g.ft.Groups = append(g.ft.Groups, "g1 ") // differs from "g1" only in a blank
+			}
 			g.ft.Objects = true
 			g.ft.Flatten = true
 			g.ft.NT = g.r.Range(2, 4)
@@ -308,6 +311,9 @@ func init() {
 				g.ft.FaultRate, g.ft.PRetry = 0.15, 0.4
 			}
 			g.ft.Groups = []string{"g1", "g2"}[:g.r.Range(1, 2)]
+			if g.r.P(0.25) {
+				g.ft.Groups = append(g.ft.Groups, "g1 ") // differs from "g1" only in a blank
+			}
 			g.ft.Objects, g.ft.Soft = true, true
 			g.ft.GroupDecs = false
 			g.ft.NT = g.r.Range(2, 4)
